@@ -14,7 +14,8 @@ NoteFinding(name) == TLCSet(42, TLCGet(42) \cup {name})
 
 RESULT == 0
 SHUTTING_DOWN == 50300  API_QUEUE_FULL == 50301  SCHEDULER_FULL == 50303  AIO_ERROR == 50001
-Codes == {RESULT, SHUTTING_DOWN, API_QUEUE_FULL, SCHEDULER_FULL, AIO_ERROR}
+STORE_ERROR == 50004   AIO_QUEUE_FULL == 50302     \* explicit subsystem failures
+Codes == {RESULT, SHUTTING_DOWN, API_QUEUE_FULL, SCHEDULER_FULL, AIO_ERROR, STORE_ERROR, AIO_QUEUE_FULL}
 
 VARIABLES l, called, replied, shut, exited, held, bad
 vars == <<l, called, replied, shut, exited, held, bad>>
